@@ -12,6 +12,11 @@ Qed.
 Lemma lookup_cons_eq {A} (d x : A) l : lookup d (x :: l) (length l) = x.
 Proof. unfold lookup. simpl length. replace (S (length l) - 1 - length l) with 0 by lia. reflexivity. Qed.
 
+Lemma lookup_hd {A} (d x : A) tbl n : length tbl = n -> lookup d (x :: tbl) n = x.
+Proof. intros <-. apply lookup_cons_eq. Qed.
+Lemma lookup_tl {A} (d x : A) tbl n k : length tbl = n -> k < n -> lookup d (x :: tbl) k = lookup d tbl k.
+Proof. intros <- H. apply lookup_cons_lt, H. Qed.
+
 Section Lists.
   Variable T : Type.
   Variables (zero one : T).
